@@ -315,6 +315,15 @@ func (g *gen) block(depth int, self *app) []*stmt {
 	if depth == 0 && r.Chance(1, 4) {
 		out = append(out, &stmt{kind: "ret", text: "ok"})
 	}
+	// a return may sit anywhere in a statement list, also before calls (legal Sysl; the
+	// calls after it are still calls of the model)
+	if !g.quiet && r.Chance(1, 5) {
+		k := r.Intn(len(out) + 1)
+		for k < len(out) && out[k].kind == "else" {
+			k++ // never between an if and its else
+		}
+		out = append(out[:k:k], append([]*stmt{{kind: "ret", text: r.Pick([]string{"ok", "error", "200"})}}, out[k:]...)...)
+	}
 	return out
 }
 
@@ -388,8 +397,8 @@ func (g *gen) addCall(from *app, ep *endpoint, to *app, toEp string) {
 	for d := r.Intn(4); d > 0; d-- {
 		ss = g.nestedKind(blockKinds[r.Intn(len(blockKinds))], 2, from, ss)
 	}
-	// keep a trailing return last
-	if n := len(ep.stmts); n > 0 && ep.stmts[n-1].kind == "ret" {
+	// mostly keep a trailing return last (sometimes the call follows the return)
+	if n := len(ep.stmts); n > 0 && ep.stmts[n-1].kind == "ret" && r.Chance(2, 3) {
 		ep.stmts = append(append(append([]*stmt(nil), ep.stmts[:n-1]...), ss...), ep.stmts[n-1])
 		return
 	}
